@@ -976,6 +976,8 @@ class PipelineComponent(Component):
             env = dict(os.environ)
             env["PYTHONPATH"] = os.path.join(engine.HERE, "compat") + os.pathsep + os.path.join(implrun.REPO, "src")
             p = self._run_inproc(yp, ap) if case.get("mode") == "inproc" else None
+            if p is not None and p.returncode != 0 and "sim" in lib and str(lib["sim"][0]) == "Done":
+                p = None          # the library completes but the in-process call failed: ask the real command line
             if p is None:
                 cmd = ["/venv/bin/python", os.path.join(implrun.REPO, "src", "processor_sim.py"), "--processor", yp, ap]
                 p = subprocess.run(cmd, capture_output=True, text=True, env=env, timeout=120)
